@@ -242,7 +242,7 @@ func checkTableRender(vt *multiterm.VirtualTerm, counter *aggregation.TableAggre
 }
 
 func genLimit(t *rapid.T, label string, big int) int {
-	return rapid.SampledFrom([]int{0, 0, 1, 2, 3, 5, 10, 20, big}).Draw(t, label)
+	return rapid.SampledFrom([]int{0, 1, 2, 3, 5, 8, 10, 20, 20, big, big}).Draw(t, label)
 }
 
 func genTable(t *rapid.T) TableCase {
@@ -279,7 +279,7 @@ func classifyTable(c TableCase) (bool, []string) {
 var tableSpec = pbt.Spec[TableCase]{
 	Property: "C14", Name: "table",
 	Rule:   "history of (column,row,inc) samples (profiles pos/zero/neg/mixed/huge/all-equal; keys incl. empty, long, multi-byte, ESC, invalid UTF-8; <=40 columns x <=25 rows) fed to the real TableAggregator and rendered through the transcribed cmd/tabulate.go callback (DataTable.WriteTable + footers) after every cut (1-5 renders of the growing state) x --num/--cols 0..45 x row/column totals x sorters x format x colour. Oracle: no panic/hang; line 0 holds the displayed column keys (+Total), line 1+i the key of row i and formatter(cell) for every displayed column (+ formatter(row sum)), the totals line formatter(column sums) (+ grand total), values from an independent fold; every column starts at one visible offset (rune count after removing the SGR codes) on all lines of the render. Lines with an ESC key and formats reading min/max: crash-only. Non-trivial: >=3 rows and >=2 columns displayed, >=2 renders and a hostile feature (negative/zero/huge value, empty/long/multi-byte key, limit 0, more rows or columns than fit)",
-	Budget: pbt.Budget{Quick: 12000, Thorough: 300000},
+	Budget: pbt.Budget{Quick: 32000, Thorough: 600000},
 	Gen:    genTable, Check: heapGuard(checkTable), Watchdog: caseWatchdog, Classify: classifyTable,
 }
 
